@@ -800,6 +800,39 @@ def stream_cache(tier, seed):
             else:
                 ops.append("f")
         emit(cap, ops)
+    # H3: many laps around the ring with fresh keys and no empty values (the situations the ring-layout invariant
+    # is about: a wrap with survivors in the tail, a value larger than half the buffer arriving after small ones,
+    # an insertion ending exactly where the oldest entry begins, co-prime sizes drifting around the ring)
+    for cap in range(5, 11):
+        for a in range(1, cap + 1):
+            for b in range(1, cap + 1):
+                counter[0] = 0
+                seq = []
+                tot = 0
+                while tot < 2 * cap + a:
+                    seq.append(a)
+                    tot += a
+                seq += [b, a, b]
+                emit(cap, ["i:%d:%s" % (k, hx(val(sz))) for k, sz in enumerate(seq)])
+    for cap in range(5, 11):
+        for s1, s2 in ((1, 1), (1, 2), (2, 1), (3, 1), (1, 3), (2, 3), (3, 3)):
+            for fill in range(cap, 2 * cap + 1):
+                for big in range(cap // 2 + 1, cap + 1):
+                    counter[0] = 0
+                    seq = []
+                    tot = 0
+                    while tot < fill:
+                        seq.append(s1 if len(seq) % 2 == 0 else s2)
+                        tot += seq[-1]
+                    seq += [big, 1]
+                    emit(cap, ["i:%d:%s" % (k, hx(val(sz))) for k, sz in enumerate(seq)])
+    for _ in range(600 if tier == "quick" else 12000):
+        cap = rng.choice([5, 6, 7, 8, 9, 10, 11, 12, 13, 16])
+        pool = rng.choice([[1, 2, 3], [1, 1, 2, cap // 2 + 1], [2, 3, cap - 1], [1, 2, 3, cap // 2, cap // 2 + 1, cap], [1, 3, 4], [1, cap]])
+        counter[0] = rng.randrange(1000)
+        seq = [rng.choice(pool) for _ in range(rng.randrange(12, 45))]
+        ops = ["i:%d:%s" % (k, hx(val(max(1, sz)))) for k, sz in enumerate(seq)]
+        emit(cap, ops)
     # typed lookups: encoded transactions (valid, with trailing bytes, truncated, mutated) stored and read
     # back through get_value::<Transaction>, across evictions and wrap-arounds
     for _ in range(120 if tier == "quick" else 2000):
